@@ -200,3 +200,100 @@ def _b_type(ex, st, args, kw, node):
 
 
 lib.BUILTINS['type'] = _b_type
+
+
+# ---- {key: value for ... in xs} of symbolic length ---------------------------------------------------
+# The core states the content of a dict comprehension with a quantifier alternation ("position j gives the value of its
+# key unless a LATER position has the same key").  A logical CONSEQUENCE of that fact is added here (nothing new is
+# assumed): if the keys are pairwise distinct, every position gives the value of its key.  It lets the solvers use the
+# distinctness that IdManager.prepare establishes (len(xs) == len(set(xs))) without instantiating the inner quantifier.
+_orig_comprehension = lib.comprehension
+
+
+def _comprehension(ex, st, node, kind):
+    if not (_mine(ex) and kind == 'dict' and len(node.generators) == 1 and not node.generators[0].ifs):
+        return _orig_comprehension(ex, st, node, kind)
+    gen = node.generators[0]
+    if any(not (isinstance(c.func, ast.Name) and c.func.id in ('enumerate', 'zip', 'range', 'len'))
+           for c in ast.walk(gen.iter) if isinstance(c, ast.Call)):
+        return _orig_comprehension(ex, st, node, kind)       # the iterable is evaluated twice below: only side-effect free ones
+    itv = ex.ev(st, gen.iter)
+    view = lib.iter_view(ex, st, itv, gen.iter)
+    if ex.concrete_int(view.n) is not None:
+        return _orig_comprehension(ex, st, node, kind)
+    d = _orig_comprehension(ex, st, node, kind)
+    saved = dict(st.locals)
+    try:
+        j, j2 = z3.Int(fresh_name('j')), z3.Int(fresh_name('j'))
+        guard = z3.And(j >= 0, j < view.n)
+        st.bound.append((j, guard))
+        try:
+            ex.assign(st, gen.target, view.get(st, j))
+            kv = ex.ev(st, node.key)
+            vv = ex.ev(st, node.value)
+        finally:
+            st.bound.pop()
+        key2 = z3.substitute(kv.t, (j, j2))
+        distinct = z3.ForAll([j, j2], z3.Implies(z3.And(j >= 0, j < j2, j2 < view.n), kv.t != key2))
+        mp = st.read(as_ref(d), '$map')
+        st.assume(z3.Implies(distinct, z3.ForAll([j], z3.Implies(guard, z3.Select(mp, kv.t) == ex.box(st, vv)))))
+    finally:
+        st.locals = saved
+    return d
+
+
+lib.comprehension = _comprehension
+
+
+# ---- extra solver attempts for the obligations of IdManager.prepare -------------------------------------
+# The VC of prepare carries ~130 quantified hypotheses; the same query is `unsat` in 1-15 s or `unknown` after 20 s
+# depending on seed, constant names and machine load (DESIGN 0.6, incident 4).  When the core portfolio ends with
+# `unknown` for such an obligation, a few more configurations are tried (other seeds, MBQI off, longer budget).  Only an
+# `unsat` answer changes the verdict (to discharged); `unknown` stays `unknown`, so nothing is assumed.
+import time as _time                  # noqa: E402
+
+_RETRY_PREFIX = 'C03:IdManager.prepare:'
+_RETRY = [(30000, 11, True), (30000, 3, False), (45000, 23, True), (45000, 5, False)]
+
+
+def install_discharge_retry():
+    """called by contracts/c03c_prepare.py (pyvc.verify cannot be imported while the extensions are being loaded)"""
+    import pyvc.verify as _VF
+    if getattr(_VF.discharge, '_c03c_retry', False):
+        return
+    _orig_discharge = _VF.discharge
+
+    def _discharge(ob, timeout_ms, witness_terms):
+        res = _orig_discharge(ob, timeout_ms, witness_terms)
+        if res.status != 'unknown' or not ob.name.startswith(_RETRY_PREFIX):
+            return res
+        t0 = _time.time()
+        for tmo, seed, mbqi in _RETRY:
+            s = z3.Solver()
+            s.set('timeout', tmo)
+            s.set('random_seed', seed)
+            s.set('smt.random_seed', seed)
+            if not mbqi:
+                s.set('smt.mbqi', False)
+            for a in _VF.background_axioms():
+                s.add(a)
+            s.add(*ob.hyps)
+            s.add(z3.Not(ob.goal))
+            try:
+                r = str(s.check())
+            except z3.Z3Exception:
+                r = 'unknown'
+            if r == 'unsat':
+                res.status = 'discharged'
+                res.backend = f'z3-{z3.get_version_string()}(retry seed {seed}{"" if mbqi else ", mbqi off"})'
+                res.model = None
+                res.note = ob.note
+                res.seconds = round(res.seconds + _time.time() - t0, 4)
+                return res
+        res.seconds = round(res.seconds + _time.time() - t0, 4)
+        return res
+
+
+
+    _discharge._c03c_retry = True
+    _VF.discharge = _discharge
